@@ -2,8 +2,6 @@ package main
 
 import (
 	"fmt"
-	"sync/atomic"
-	"time"
 	"io"
 	"os"
 	"path/filepath"
@@ -11,6 +9,8 @@ import (
 	"strconv"
 	"strings"
 	"sync"
+	"sync/atomic"
+	"time"
 
 	"github.com/douban/gobeansdb/store"
 )
@@ -33,18 +33,18 @@ type crashSnap struct {
 }
 
 type crashRec struct {
-	mu      sync.Mutex
-	armed   bool
-	inGC    bool
-	home    string
-	base    string
-	r       *RNG
-	snaps   []crashSnap
-	events  int
-	max     int
-	pending []string // trace lines produced inside hooks, emitted by the main goroutine
-	parkRot chan struct{} // mix c02: the post-rotation flush waits here until released
-	parkOnly map[int]bool // mix c02: if not nil, only the flushes of these files wait (the others run)
+	mu        sync.Mutex
+	armed     bool
+	inGC      bool
+	home      string
+	base      string
+	r         *RNG
+	snaps     []crashSnap
+	events    int
+	max       int
+	pending   []string      // trace lines produced inside hooks, emitted by the main goroutine
+	parkRot   chan struct{} // mix c02: the post-rotation flush waits here until released
+	parkOnly  map[int]bool  // mix c02: if not nil, only the flushes of these files wait (the others run)
 	rotParked int32
 }
 
@@ -476,69 +476,151 @@ func crashCase(c *Ctx, r *RNG, id, base, mix string) {
 	cs.flushLines(c)
 	c.line("history-end")
 	theHub.takeFatal()
-	// what each crash state recovers to
-	for _, sn := range snaps {
-		cfg2 := cfg
-		cfg2.home = sn.dir
-		s2 := &seqStore{cfg: cfg2}
-		curStore = s2
-		err := s2.open()
-		if err != nil {
-			c.line("crash %d => REFUSED", sn.n)
-			theHub.takeFatal()
-			c.count("crash.refused")
-			continue
-		}
-		c.line("crash %d => OK", sn.n)
-		c.count("crash.recovered")
-		for _, k := range keys {
-			var res string
-			item, gerr := s2.cl.Get(k)
-			switch {
-			case theHub.takeFatal() != "":
-				res = "FATAL"
-			case gerr != nil:
-				res = "ERR"
-			case item == nil:
-				res = "MISS"
-			default:
-				res = fmt.Sprintf("VAL %d %s", item.Flag, valSummary(item.Body))
-			}
-			c.line("cget %d %s => %s", sn.n, hx([]byte(k)), res)
-		}
-		if mix == "c06" {
-			// C08 after an unclean stop: the listings of the recovered tree (root and the first digit of every key hash)
-			probes := map[string]bool{"": true}
-			for _, k := range keys {
-				probes[fmt.Sprintf("%016x", store.VerifKeyHash([]byte(k)))[:1]] = true
-			}
-			var ps []string
-			for p := range probes {
-				ps = append(ps, p)
-			}
-			sort.Strings(ps)
-			for _, p := range ps {
-				var body string
-				item, lerr := s2.cl.Get("@" + p)
-				switch {
-				case lerr != nil:
-					body = "ERR"
-				case item == nil:
-					body = "NIL"
-				default:
-					body = "[" + strings.ReplaceAll(strings.TrimSuffix(string(item.Body), "\n"), "\n", "|") + "]"
-				}
-				pp := p
-				if pp == "" {
-					pp = "-"
-				}
-				c.line("clist %d %s => %s", sn.n, pp, body)
-			}
-		}
-		guard(func() { s2.hs.Close() })
-		s2.quiesce()
-		theHub.takeFatal()
-		os.RemoveAll(sn.dir)
+	// what each crash state recovers to.  In some c06 cases ONE of the crash states then becomes the store of a second
+	// process life (the kill really happened there): more operations with crash points of their own, so that the
+	// second start works on what the first recovery left behind (stray hint files, a new head file...)
+	jsel := -1
+	if mix == "c06" && len(snaps) > 0 && r.Chance(45) {
+		jsel = snaps[r.Intn(len(snaps))].n
 	}
+	var checkSnaps func(snaps []crashSnap, second bool)
+	checkSnaps = func(snaps []crashSnap, second bool) {
+		if jsel >= 0 && !second {
+			// the selected state is looked at last: the second life continues from it
+			var rest []crashSnap
+			var sel []crashSnap
+			for _, sn := range snaps {
+				if sn.n == jsel {
+					sel = append(sel, sn)
+				} else {
+					rest = append(rest, sn)
+				}
+			}
+			snaps = append(rest, sel...)
+		}
+		for _, sn := range snaps {
+			cfg2 := cfg
+			cfg2.home = sn.dir
+			s2 := &seqStore{cfg: cfg2}
+			curStore = s2
+			err := s2.open()
+			if err != nil {
+				c.line("crash %d => REFUSED", sn.n)
+				theHub.takeFatal()
+				c.count("crash.refused")
+				continue
+			}
+			c.line("crash %d => OK", sn.n)
+			c.count("crash.recovered")
+			for _, k := range keys {
+				var res string
+				item, gerr := s2.cl.Get(k)
+				switch {
+				case theHub.takeFatal() != "":
+					res = "FATAL"
+				case gerr != nil:
+					res = "ERR"
+				case item == nil:
+					res = "MISS"
+				default:
+					res = fmt.Sprintf("VAL %d %s", item.Flag, valSummary(item.Body))
+				}
+				c.line("cget %d %s => %s", sn.n, hx([]byte(k)), res)
+			}
+			if mix == "c06" {
+				// C08 after an unclean stop: the listings of the recovered tree (root and the first digit of every key hash)
+				probes := map[string]bool{"": true}
+				for _, k := range keys {
+					probes[fmt.Sprintf("%016x", store.VerifKeyHash([]byte(k)))[:1]] = true
+				}
+				var ps []string
+				for p := range probes {
+					ps = append(ps, p)
+				}
+				sort.Strings(ps)
+				for _, p := range ps {
+					var body string
+					item, lerr := s2.cl.Get("@" + p)
+					switch {
+					case lerr != nil:
+						body = "ERR"
+					case item == nil:
+						body = "NIL"
+					default:
+						body = "[" + strings.ReplaceAll(strings.TrimSuffix(string(item.Body), "\n"), "\n", "|") + "]"
+					}
+					pp := p
+					if pp == "" {
+						pp = "-"
+					}
+					c.line("clist %d %s => %s", sn.n, pp, body)
+				}
+			}
+			if !second && sn.n == jsel {
+				// second life on this crash state
+				c.line("life2 %d", sn.n)
+				c.count("crash.second-life")
+				s = s2
+				cs.mu.Lock()
+				cs.home = sn.dir
+				n0 := len(cs.snaps)
+				cs.max = n0 + 14
+				cs.armed = true
+				cs.mu.Unlock()
+				bad := false
+				for i, nops := 0, 2+r.Intn(9); i < nops && !bad; i++ {
+					if f := theHub.takeFatal(); f != "" {
+						c.line("fatal => %s", strings.ReplaceAll(f, "\n", " "))
+						bad = true
+						break
+					}
+					switch p := r.Intn(100); {
+					case p < 64:
+						write()
+					case p < 90:
+						s.flushAll()
+						c.line("flush")
+						c.count("op.flush")
+					default:
+						if pn := guard(func() { s.hs.VerifDumpHints(0) }); pn != "" {
+							c.line("fatal => dumphints: %s", pn)
+							bad = true
+						} else {
+							c.line("dumphints")
+						}
+						c.count("op.dumphints")
+					}
+					cs.flushLines(c)
+				}
+				if !bad {
+					// the second kill, wherever the life has got to (at least this one state is looked at)
+					cs.mu.Lock()
+					if len(cs.snaps) >= cs.max {
+						cs.max = len(cs.snaps) + 1
+					}
+					cs.take("ev=killed life=2", nil)
+					cs.armed = false
+					cs.mu.Unlock()
+				}
+				cs.mu.Lock()
+				cs.armed = false
+				snaps2 := append([]crashSnap(nil), cs.snaps[n0:]...)
+				cs.mu.Unlock()
+				cs.flushLines(c)
+				guard(func() { s2.hs.Close() })
+				s2.quiesce()
+				theHub.takeFatal()
+				c.line("history-end")
+				checkSnaps(snaps2, true)
+				os.RemoveAll(sn.dir)
+				continue
+			}
+			guard(func() { s2.hs.Close() })
+			s2.quiesce()
+			theHub.takeFatal()
+			os.RemoveAll(sn.dir)
+		}
+	}
+	checkSnaps(snaps, false)
 	c.line("end")
 }
